@@ -1,28 +1,36 @@
 #!/usr/bin/env python3
-"""Regenerate rules/anchors.json from a facts directory of the UNCHANGED tree (default .cache/dev): the private functions that rule
-modules name (their anchors) with their signatures, and every production function path known at that time. Used by
-facts.Program to recognise a renamed / moved private anchor by its role (crate, non-pub, same signature, not a previously known path)."""
+"""Regenerate rules/anchors.json from facts directories of the UNCHANGED tree — one per analysed configuration (default and
+profile): the private functions that rule modules name (their anchors) with their signatures, every production function path known
+in ANY configuration, and parameter names.  Used by facts.Program to recognise a renamed / moved private anchor by its role
+(crate, non-pub, same signature, not a previously known path).
+
+  python3 tools/mkanchors.py <default facts dir> <profile facts dir>      (./vf extract ; ./vf extract profile)"""
 import sys, re, glob, json
 sys.path.insert(0, '/verif')
 from rules import facts
-PR = facts.Program(sys.argv[1] if len(sys.argv) > 1 else '/verif/.cache/dev', resolve_renames=False)
+dirs = sys.argv[1:] or ['/verif/.cache/dev']
 ids = set()
 for m in glob.glob('/verif/rules/*.py'):
     ids |= set(re.findall(r"[A-Za-z_][A-Za-z0-9_]*", open(m).read()))
-anchors, known = [], []
-for f in PR.fns.values():
-    if f['crate'] not in facts.PRODUCTION_CRATES:
-        continue
-    known.append(f['path'])
-    name = f['path'].rsplit('::', 1)[-1]
-    if f['vis'] != 'pub' and name in ids and len(name) > 6:
-        anchors.append({"path": f['path'], "crate": f['crate'], "name": name, "inputs": f['inputs'], "output": f['output']})
-# parameter names of every production function (rules that say `config.num_wires` or `inputs.proofs` mean "that parameter", not its name)
-params = {}
-for b in PR.bodies.values():
-    if b.crate in facts.PRODUCTION_CRATES and b.kind != "Closure" and b.argc:
-        names = [b.local_name(i) for i in range(1, b.argc + 1)]
-        if all(names):
-            params.setdefault(b.path, names)
-json.dump({"anchors": sorted(anchors, key=lambda a: a['path']), "known_paths": sorted(set(known)), "params": params}, open('/verif/rules/anchors.json', 'w'), indent=1)
-print(len(anchors), 'anchors,', len(known), 'known paths,', len(params), 'parameter lists')
+anchors, known, params = {}, set(), {}
+for d in dirs:
+    PR = facts.Program(d, resolve_renames=False)
+    for f in PR.fns.values():
+        if f['crate'] not in facts.PRODUCTION_CRATES:
+            continue
+        known.add(f['path'])
+        name = f['path'].rsplit('::', 1)[-1]
+        if f['vis'] != 'pub' and name in ids and len(name) > 6:
+            anchors.setdefault(f['path'], {"path": f['path'], "crate": f['crate'], "name": name, "inputs": f['inputs'], "output": f['output'], "configs": []})["configs"].append(d.rsplit('-', 1)[-1])
+    # parameter names of every production function (rules that say `config.num_wires` or `inputs.proofs` mean "that parameter", not its name)
+    for b in PR.bodies.values():
+        if b.crate in facts.PRODUCTION_CRATES and b.kind != "Closure" and b.argc:
+            names = [b.local_name(i) for i in range(1, b.argc + 1)]
+            if all(names):
+                params.setdefault(b.path, names)
+for a in anchors.values():
+    # an anchor that exists in only some configurations (cfg-gated) is not "missing" in the others: rename resolution is applied
+    # only to anchors present in every configuration
+    a["everywhere"] = len(a.pop("configs")) == len(dirs)
+json.dump({"anchors": sorted(anchors.values(), key=lambda a: a['path']), "known_paths": sorted(known), "params": params}, open('/verif/rules/anchors.json', 'w'), indent=1)
+print(len(anchors), 'anchors (%d in every configuration),' % sum(1 for a in anchors.values() if a["everywhere"]), len(known), 'known paths,', len(params), 'parameter lists')
